@@ -368,6 +368,15 @@ func (ip *interp) observe(kind, name string) J {
 		switch kind {
 		case "len":
 			r["len"] = int(m.Len())
+		case "peek":
+			// an application reads only the beginning of the encoding (Read-style codecs: a destination shorter than the value)
+			if a, ok := m.(*rwAdapter); ok {
+				buf := make([]byte, 16)
+				n, _ := a.v.Read(buf)
+				r["n"] = n
+			} else {
+				r["n"] = 0
+			}
 		case "marshal":
 			b, err := m.MarshalBinary()
 			r["bytes"] = byteList(b)
